@@ -192,15 +192,19 @@ def r_entry_sibling(ck: Checker) -> None:
     v = ck.repo.func(PAT, "validate_pattern")
     f = ck.repo.func(PAT, "NodeMatcher.from_pattern")
     def ladder_of(fn_: Func) -> list[tuple]:
-        """The function's own try ladder, or that of the (single) extracted helper it delegates to."""
-        own = _ladder(fn_.node)
-        if own:
-            return own
+        """The function's try ladder in statement order; a step delegated to an extracted helper contributes the helper's ladder."""
         m_ = ck.repo.mod(PAT)
-        for c in walk_body(fn_.node.body):
-            if isinstance(c, ast.Call) and isinstance(c.func, ast.Name) and ck.repo.has_func(PAT, c.func.id) and ck.repo.is_new_helper(m_, c.func.id):
-                return [("via " + c.func.id + "(" + ", ".join(norm(a) for a in c.args) + ")",)] + _ladder(ck.repo.func(PAT, c.func.id).node)
-        return own
+        out: list[tuple] = []
+        for st in fn_.node.body:
+            if isinstance(st, ast.Try):
+                out += _ladder(ast.FunctionDef(name="x", args=fn_.node.args, body=[st], decorator_list=[], lineno=0, col_offset=0))
+                continue
+            for c in [n for n in ast.walk(st) if isinstance(n, ast.Call) and isinstance(n.func, ast.Name)]:
+                if ck.repo.has_func(PAT, c.func.id) and ck.repo.is_new_helper(m_, c.func.id):
+                    hl = _ladder(ck.repo.func(PAT, c.func.id).node)
+                    if hl:
+                        out += [("via " + c.func.id + "(" + ", ".join(norm(a) for a in c.args) + ")",)] + hl
+        return out
 
     lv, lf = ladder_of(v), ladder_of(f)
     what = "validate_pattern and NodeMatcher.from_pattern have the same ladder: same guarded calls, same handler types, same rejection messages"
